@@ -21,7 +21,22 @@ def load_variants():
     spec = importlib.util.spec_from_file_location("verif_variants", path)
     mod = importlib.util.module_from_spec(spec)
     spec.loader.exec_module(mod)
-    return mod.VARIANTS
+    out = list(mod.VARIANTS)
+    # the changes written by independent sub-agents (confirmed and filed under /verif/seeded) are regression variants too
+    sdir = os.path.join(VERIF, "seeded")
+    if os.path.isdir(sdir):
+        for name in sorted(os.listdir(sdir)):
+            mp = os.path.join(sdir, name, "meta.json")
+            pp = os.path.join(sdir, name, "patch.diff")
+            if os.path.isfile(mp) and os.path.isfile(pp):
+                try:
+                    meta = json.load(open(mp))
+                except ValueError:
+                    continue
+                props = [p for p in meta.get("caught_by", []) if p]
+                if meta.get("valid") and props:
+                    out.append({"id": "seeded-" + name, "props": props, "patch": pp, "expect": "fire", "rule": None, "edits": []})
+    return out
 
 
 def has_variants(pid):
@@ -35,6 +50,18 @@ def apply_variant(repo, v, dest):
         src = os.path.join(repo, sub)
         if os.path.isdir(src):
             shutil.copytree(src, os.path.join(dest, sub), ignore=shutil.ignore_patterns("__pycache__", "*.pyc"))
+    if v.get("patch"):
+        import subprocess
+        r = subprocess.run(["git", "apply", "--unsafe-paths", v["patch"]], cwd=dest, capture_output=True, text=True)
+        if r.returncode != 0:
+            return "patch does not apply: %s" % r.stderr.strip()[:200]
+        for root, dirs, files in os.walk(os.path.join(dest, "pyscsi")):
+            for f in files:
+                if f.endswith(".py"):
+                    try:
+                        compile(open(os.path.join(root, f)).read(), f, "exec")
+                    except SyntaxError as e:
+                        return "variant does not compile: %s" % e
     for edit in v["edits"]:
         path = os.path.join(dest, edit["file"])
         if not os.path.isfile(path):
